@@ -845,21 +845,27 @@ class rechunk_specs:
 class reductions_numpy:
     """every reduction over any axes, keepdims and split_every gives NumPy's result whatever the chunking and fan-in"""
     bounded_only = True
-    params = {"func": "const", "chunks": "const", "axis": "const", "keepdims": "const", "split_every": "const"}
-    scope = ("4x6 float data with NaNs for the nan-variants; 16 reducers; axes None/0/1/(0,1); keepdims; split_every None/2/3/{0:2,1:3}; "
+    params = {"func": "const", "chunks": "const", "axis": "const", "keepdims": "const", "split_every": "const", "nanpat": "const"}
+    scope = ("4x6 float data, four NaN patterns (sparse, block-local all-NaN lanes, dense, a whole NaN row) for the nan-variants; 16 reducers; axes None/0/1/(0,1); keepdims; split_every None/2/3/{0:2,1:3}; "
              "layouts from single block to 1x1 blocks")
 
     def real():
         return lambda x, func, **kw: getattr(x, func)(**kw)
 
-    def call(fn, func, chunks, axis, keepdims, split_every):
+    def call(fn, func, chunks, axis, keepdims, split_every, nanpat):
         import numpy as np
         import dask_array as da
         d = (np.arange(24.0).reshape(4, 6) * 7 % 11) - 3
         if func.startswith("nan"):
             d = d.copy()
-            d[1, 2] = np.nan
-            d[3, 0] = np.nan
+            pats = {
+                0: [(1, 2), (3, 0)],
+                1: [(0, 0), (0, 1), (1, 0), (2, 1), (3, 2), (0, 4), (1, 4), (2, 5)],   # lanes all-NaN inside a block only
+                2: [(r, c) for r in range(4) for c in range(6) if (r * 5 + c * 3) % 4 == 0],
+                3: [(0, c) for c in range(6)] + [(2, 1), (3, 3)],                       # a whole row of NaNs
+            }
+            for rc in pats[nanpat]:
+                d[rc] = np.nan
         x = da.from_array(d, chunks=chunks)
         kw = {"axis": axis, "keepdims": keepdims}
         dfun = getattr(da, func)
@@ -870,26 +876,30 @@ class reductions_numpy:
             got = dfun(x, **kw)
         return np.asarray(got.compute()), np.asarray(nfun(d, **kw)), got.numblocks
 
-    def requires(func, chunks, axis, keepdims, split_every):
+    def requires(func, chunks, axis, keepdims, split_every, nanpat):
         if func in ("argmin", "argmax", "nanargmin", "nanargmax") and isinstance(axis, tuple):
             return False
+        if func in ("nanargmin", "nanargmax") and nanpat == 3 and axis in (1, None):
+            return axis is None  # an all-NaN lane along the reduced axis: NumPy raises
         return True
 
-    def ensures(result, func, chunks, axis, keepdims, split_every):
+    def ensures(result, func, chunks, axis, keepdims, split_every, nanpat):
         got, want, nb = result
         return {"equals-numpy": _same(got, want)}
 
     def domain(tier, rng):
-        funcs = ["sum", "prod", "min", "max", "any", "all", "mean", "var", "std", "nansum", "nanmean", "nanmax", "nanvar",
-                 "argmin", "argmax", "nanargmax"]
+        funcs = ["sum", "prod", "min", "max", "any", "all", "mean", "var", "std", "nansum", "nanmean", "nanmax", "nanmin", "nanvar",
+                 "nanprod", "argmin", "argmax", "nanargmax", "nanargmin"]
         layouts = [((4,), (6,)), ((2, 2), (3, 3)), ((1, 1, 1, 1), (1,) * 6), ((3, 1), (1, 5)), ((1, 3), (2, 2, 2))]
         axes = [None, 0, 1, (0, 1)]
         ses = [None, 2, 3, {0: 2, 1: 3}]
-        combos = [(f, l, a, k, s) for f in funcs for l in layouts for a in axes for k in (False, True) for s in ses]
+        combos = [(f, l, a, k, s, p) for f in funcs for l in layouts for a in axes for k in (False, True) for s in ses
+                  for p in ((0, 1, 2, 3) if f.startswith("nan") else (0,))]
         if tier == "quick":
-            combos = rng.sample(combos, 500)
-        for f, l, a, k, s in combos:
-            yield {"func": f, "chunks": l, "axis": a, "keepdims": k, "split_every": s}
+            nan_arg = [c for c in combos if c[0] in ("nanargmax", "nanargmin") and c[4] is None and not c[3]]
+            combos = rng.sample(combos, 600) + nan_arg
+        for f, l, a, k, s, p in combos:
+            yield {"func": f, "chunks": l, "axis": a, "keepdims": k, "split_every": s, "nanpat": p}
 
 
 @contract("dask_array/reductions/_reduction.py::_build_tree_reduce_expr", spec="depth", props=["C18"])
@@ -974,6 +984,19 @@ class windows_numpy:
                 if not _same(got, getattr(np, op)(d)):
                     return got, getattr(np, op)(d)
             return got, getattr(np, op)(d)
+        if op == "scan-blocks":
+            # cumulative scans over many blocks (the parallel prefix tree depends on the block count)
+            nblk = w
+            dd = (np.arange(2 * nblk) * 7 % 5 - 2.0)
+            dd[dd == 0] = 1.5
+            xx = da.from_array(dd, chunks=2)
+            for name in ("cumsum", "cumprod"):
+                for method in ("sequential", "blelloch"):
+                    got = np.asarray(getattr(da, name)(xx, axis=0, method=method).compute())
+                    want = getattr(np, name)(dd)
+                    if not _same(got, want):
+                        return got, want
+            return got, want
         if op == "gradient":
             if min(chunks) < 2:
                 return None, None
@@ -1004,6 +1027,8 @@ class windows_numpy:
                 ws = range(1, 7) if op.startswith("swv") else ((1, 2) if op.startswith("overlap") or op == "diff" else (1,))
                 for w in ws:
                     yield {"op": op, "chunks": c, "w": w}
+        for nblk in range(1, 35 if tier == "quick" else 70):
+            yield {"op": "scan-blocks", "chunks": (9,), "w": nblk}
 
 
 # ---------------------------------------------------------------------------
@@ -1319,3 +1344,63 @@ class constructors_touch_no_data:
             for dt in ("i8", "f8"):
                 for vdt in ("i8", "f8"):
                     yield {"op": op, "dtype": dt, "vdtype": vdt}
+
+
+@contract("dask_array/slicing/_vindex.py::_vindex", spec="points", props=["C12"])
+class vindex_points:
+    """x.vindex[...] returns what NumPy point indexing returns; an index that is out of bounds raises (IndexError)
+    instead of wrapping around"""
+    bounded_only = True
+    params = {"shape": "const", "chunks": "const", "idx": "const"}
+    scope = ("1-D (10) and 2-D (7x8, incl. a zero-length chunk) arrays; point lists with in-range, negative, and "
+             "out-of-bounds values at exactly size, size+1, -size, -size-1; broadcast point lists")
+    raises = {"IndexError": lambda shape, chunks, idx: _vindex_oob(shape, idx)}
+
+    def real():
+        return lambda x, idx: x.vindex[idx]
+
+    def call(fn, shape, chunks, idx):
+        import numpy as np
+        import dask_array as da
+        d = np.arange(int(np.prod(shape))).reshape(shape) * 3
+        x = da.from_array(d, chunks=chunks)
+        got = np.asarray(fn(x, idx).compute())
+        return got, d
+
+    def requires(shape, chunks, idx):
+        return True
+
+    def ensures(result, shape, chunks, idx):
+        if _vindex_oob(shape, idx):
+            return {"out-of-bounds-refused": False}
+        import numpy as np
+        got, d = result
+        nidx = tuple(np.asarray(i) if isinstance(i, list) else i for i in idx) if isinstance(idx, tuple) else np.asarray(idx)
+        want = d[nidx]
+        mixed = isinstance(idx, tuple) and any(isinstance(i, slice) for i in idx) and isinstance(idx[0], slice)
+        if mixed:
+            # vindex documents that the point dimension comes first
+            want = np.moveaxis(want, -1, 0)
+        return {"values-equal-numpy": _same(got, want)}
+
+    def domain(tier, rng):
+        for ch in [((10,),), ((5, 5),), ((3, 0, 7),), ((1,) * 10,)]:
+            for lst in [[0, 3, 9], [9, 0], [-1, -10, 4], [3, 10, 1], [11], [-11, 2], [10], [-10], [5, 5, 5]]:
+                yield {"shape": (10,), "chunks": ch, "idx": lst}
+                yield {"shape": (10,), "chunks": ch, "idx": (lst,)}
+        for ch in [((7,), (8,)), ((3, 4), (4, 4)), ((2, 0, 5), (1, 7)), ((7,), (3, 5))]:
+            for a, b in [([0, 6, 2], [1, 2, 3]), ([0, 7, 2], [1, 2, 3]), ([0, 1, 2], [8, 2, 3]), ([-7, -1], [-8, 7]),
+                         ([-8, 1], [0, 0]), ([1, 2], [9, 0]), ([3], [4]), ([6, 6, 6], [0, 7, 0])]:
+                yield {"shape": (7, 8), "chunks": ch, "idx": (a, b)}
+            yield {"shape": (7, 8), "chunks": ch, "idx": ([1, 5], slice(None))}
+            yield {"shape": (7, 8), "chunks": ch, "idx": (slice(None), [0, 8])}
+            yield {"shape": (7, 8), "chunks": ch, "idx": (slice(None), [0, 7])}
+
+
+def _vindex_oob(shape, idx):
+    if not isinstance(idx, tuple):
+        idx = (idx,)
+    for n, i in zip(shape, idx):
+        if isinstance(i, list) and any(v >= n or v < -n for v in i):
+            return True
+    return False
